@@ -47,6 +47,7 @@ static void script(void) {
     return;
   }
   VASSERT(t != NULL, "p_hash_table_new succeeds when no allocation fails");
+  int retried_ok = 0;
   for (int i = 0; i < HOPS; i++) {
 #ifdef SYMKEYS
     ppointer k = (ppointer) (size_t) ND_RANGE(1, 8), v = (ppointer) (size_t) ND_RANGE(100, 103);
@@ -56,12 +57,16 @@ static void script(void) {
     ppointer k = (ppointer) (size_t) ((i == 2 && c18_choice) ? 1 : ck[i % 6]), v = (ppointer) (size_t) (100 + i);
 #endif
     int at = ref_find(k);
-    f0 = vm_failed;
-    int live0 = vm_live;
-    p_hash_table_insert(t, k, v);
-    if (at >= 0) { rv[at] = v; VASSERT(vm_live == live0, "replacing a value leaves the number of blocks unchanged"); }
-    else if (C18_FAILED_SINCE(f0)) VASSERT(vm_live == live0, "failed insert leaves nothing allocated");
-    else { rk[rn] = k; rv[rn] = v; rn++; }
+    for (int attempt = 0; attempt < 2; attempt++) {      /* a failed insert is retried once */
+      f0 = vm_failed;
+      int live0 = vm_live;
+      p_hash_table_insert(t, k, v);
+      if (at >= 0) { rv[at] = v; VASSERT(vm_live == live0, "replacing a value leaves the number of blocks unchanged"); break; }
+      if (C18_FAILED_SINCE(f0)) { VASSERT(vm_live == live0, "failed insert leaves nothing allocated"); same_as_model(t); continue; }
+      rk[rn] = k; rv[rn] = v; rn++;
+      if (attempt == 1) retried_ok = 1;
+      break;
+    }
     same_as_model(t);
   }
   int live1 = vm_live;
@@ -78,5 +83,10 @@ static void script(void) {
   p_hash_table_free(t);
   c18_end(2 + HOPS + 2 * HOPS);
   if (rn == HOPS) VWITNESS("all inserts stored distinct keys");
+#if !defined(NOFAIL) && !defined(FAILMODE_FROM)
+  if (retried_ok) VWITNESS("a failed insert succeeded when retried and the pair is found");
+#else
+  (void) retried_ok;
+#endif
   if (rn < HOPS && vm_failed == 0) VWITNESS("a replacement happened");
 }
